@@ -292,6 +292,12 @@ func (ef *Filter) Process(ctx context.Context, e *eventlogger.Event) (*eventlogg
 		if err := ef.filterField(ctx, payloadValue, filterOverrides, tm, opts...); err != nil {
 			return nil, fmt.Errorf("%s: %w", op, err)
 		}
+	case pKind == reflect.Map:
+		// an untagged map payload: track it, so its values are filtered as
+		// unclassified data along with every other unfiltered map
+		if err := tm.trackMap(&tMap{value: payloadValue}); err != nil {
+			return nil, fmt.Errorf("%s: %w", op, err)
+		}
 	}
 
 	if err := tm.processUnfiltered(ctx, ef, filterOverrides, opts...); err != nil {
